@@ -221,6 +221,13 @@ const (
 	modePositiveNH  = "positive-noheader" // ContentLength n > 0 without header (as http.NewRequest builds it)
 	modeJSONRequest = "via-JSONRequest"   // request built by runtime.JSONRequest around the stream (nothing declared)
 
+	// edge shapes of "declared" / "not declared" that net/http can deliver or a hand-built request legally has
+	modeAbsentEmptyHdr = "absent-empty-header"                  // ContentLength -1, header present with an empty value: nothing declared
+	modeAbsentNilHdr   = "absent-nil-header-map"                // ContentLength -1, Header map nil (a literal &http.Request{}): nothing declared
+	modeZero00         = "zero-header-00"                       // ContentLength 0, header "00" (net/http accepts leading zeros): zero declared
+	modePositiveLZ     = "positive-leading-zeros"               // ContentLength n > 0, header "00n"
+	modeWireCLHuge     = "wire:content-length-larger-than-sent" // Content-Length: N on the wire, fewer bytes follow, the connection ends: net/http's body ends with io.ErrUnexpectedEOF
+
 	// requests as net/http delivers them: the raw request text arrives over the scripted stream (which then
 	// plays the connection, chunked at the explorer's will) and is parsed by http.ReadRequest; the body the
 	// code under test sees is net/http's own body type
@@ -230,17 +237,20 @@ const (
 	modeWireNone     = "wire:no-length"      // neither header (payload must be empty)
 )
 
-var allModes = []string{modeJSONRequest, modeAbsent0, modeAbsentMinus, modeZero, modePositive, modePositiveNH, modeWireCL, modeWireChunked, modeWireChunked2, modeWireNone}
+var allModes = []string{modeAbsentEmptyHdr, modeAbsentNilHdr, modeZero00, modePositiveLZ, modeWireCLHuge, modeJSONRequest, modeAbsent0, modeAbsentMinus, modeZero, modePositive, modePositiveNH, modeWireCL, modeWireChunked, modeWireChunked2, modeWireNone}
 
 func isWire(mode string) bool { return strings.HasPrefix(mode, "wire:") }
 
 // wireOK: which (body, terminal) pairs a wire mode can carry.
 func wireOK(mode string, bodyLen int, term error) bool {
+	if mode == modeWireCLHuge {
+		return bodyLen >= 0 && term == io.ErrUnexpectedEOF
+	}
 	return bodyLen >= 0 && term == io.EOF && (mode != modeWireNone || bodyLen == 0)
 }
 
 // wireText renders a POST request carrying payload under the given framing.
-func wireText(mode string, payload []byte) []byte {
+func wireText(mode string, payload []byte, declN int64) []byte {
 	var b bytes.Buffer
 	b.WriteString("POST /x HTTP/1.1\r\nHost: h\r\nContent-Type: application/octet-stream\r\n")
 	chunk := func(p []byte) {
@@ -253,6 +263,9 @@ func wireText(mode string, payload []byte) []byte {
 	switch mode {
 	case modeWireCL:
 		fmt.Fprintf(&b, "Content-Length: %d\r\n\r\n", len(payload))
+		b.Write(payload)
+	case modeWireCLHuge:
+		fmt.Fprintf(&b, "Content-Length: %d\r\n\r\n", declN)
 		b.Write(payload)
 	case modeWireChunked, modeWireChunked2:
 		b.WriteString("Transfer-Encoding: chunked\r\n\r\n")
@@ -307,7 +320,8 @@ type Case struct {
 	FirstByte  *int      `json:"first_byte,omitempty"`          // request A: value of body byte 0 when it is not the pattern's (content axis)
 	Ctx        string    `json:"ctx,omitempty"`                 // request A: "" background context | cancellable | cancel-before | deadline-expired | cancel-while-blocked | cancel-after-probe
 	Blocking   bool      `json:"blocking_first_read,omitempty"` // the first underlying Read issued by the first probe parks until the harness releases it
-	WaitMs     int       `json:"wait_ms,omitempty"`             // how long the harness waits for an early return of that probe before releasing the Read (stimulus only)
+	WaitMs     int       `json:"wait_ms,omitempty"`
+	Declared   int64     `json:"declared_length,omitempty"` // positive modes: the declared length when it is not the body's length             // how long the harness waits for an early return of that probe before releasing the Read (stimulus only)
 	More       []ReqSpec `json:"more,omitempty"`
 	Ops        []string  `json:"ops"`
 	ZeroBudget int       `json:"zero_budget"`
@@ -335,6 +349,7 @@ type config struct {
 	mode    string
 	data    []byte
 	first   int    // -1: body byte 0 is the pattern's; otherwise its value
+	declN   int64  // declared length of the positive modes when it is not the body's length (edge values: far larger than what the stream delivers)
 	ctx     string // context of the request and the cancellation event (see Case.Ctx)
 	block   bool   // blocking first read during the first probe
 	waitMs  int
@@ -359,7 +374,7 @@ func newConfigFirst(id, bodyLen int, term error, mode string, which, first int) 
 		}
 	}
 	if isWire(mode) {
-		c.wire = wireText(mode, c.data)
+		c.wire = wireText(mode, c.data, 0)
 	}
 	return c
 }
@@ -392,7 +407,23 @@ const (
 	ctxCancelAfter   = "cancel-after-probe"   // cancelled right after the first probe returned
 )
 
+// setDeclared fixes the declared length of a positive mode (0: the default, the body's length).
+func (cfg *config) setDeclared(n int64) {
+	cfg.declN = n
+	if isWire(cfg.mode) {
+		if cfg.mode == modeWireCLHuge && n <= int64(cfg.bodyLen) {
+			cfg.declN = int64(cfg.bodyLen) + 1<<31
+		}
+		cfg.wire = wireText(cfg.mode, cfg.data, cfg.declN)
+	}
+}
+
 func (cfg *config) String() string {
+	if cfg.declN != 0 {
+		c2 := *cfg
+		c2.declN = 0
+		return fmt.Sprintf("%s; declared length %d", c2.String(), cfg.declN)
+	}
 	if cfg.ctx != "" {
 		c2 := *cfg
 		c2.ctx = ""
@@ -420,6 +451,7 @@ func mkCase(cfgs []*config, ops []uint8, zb int, choices []int) Case {
 		c.FirstByte = &f
 	}
 	c.Ctx, c.Blocking, c.WaitMs = cfgs[0].ctx, cfgs[0].block, cfgs[0].waitMs
+	c.Declared = cfgs[0].declN
 	for _, g := range cfgs[1:] {
 		c.More = append(c.More, ReqSpec{g.bodyLen, termName(g.term), g.mode})
 	}
@@ -481,6 +513,12 @@ func parseCase(c Case) ([]*config, []uint8, error) {
 		return nil, nil, fmt.Errorf("wait_ms out of range")
 	}
 	cfg.ctx, cfg.block, cfg.waitMs = c.Ctx, c.Blocking, c.WaitMs
+	if c.Declared < 0 {
+		return nil, nil, fmt.Errorf("declared_length must be positive")
+	}
+	if c.Declared != 0 || cfg.mode == modeWireCLHuge {
+		cfg.setDeclared(c.Declared)
+	}
 	cfgs := []*config{cfg}
 	for i, m := range c.More {
 		g, err := parseReq(m.BodyLen, m.Term, m.Mode, i+1, -1)
@@ -759,6 +797,17 @@ func newSess(x *xctx, idx int, cfg *config) *sess {
 		if cfg.bodyLen == 0 {
 			q.declared = 2
 		}
+	case modeWireCLHuge:
+		q.declared = 1
+	case modeAbsentEmptyHdr:
+		q.req.ContentLength = -1
+		q.req.Header["Content-Length"] = []string{""}
+	case modeAbsentNilHdr:
+		q.req.ContentLength = -1
+		q.req.Header = nil
+	case modeZero00:
+		q.req.Header.Set("Content-Length", "00")
+		q.declared = 2
 	case modeWireChunked, modeWireChunked2, modeWireNone:
 	case modeAbsent0:
 	case modeJSONRequest:
@@ -779,14 +828,20 @@ func newSess(x *xctx, idx int, cfg *config) *sess {
 	case modeZero:
 		q.req.Header.Set("Content-Length", "0")
 		q.declared = 2
-	case modePositive, modePositiveNH:
-		n := cfg.bodyLen
+	case modePositive, modePositiveNH, modePositiveLZ:
+		n := int64(cfg.bodyLen)
 		if n <= 0 {
 			n = 7
 		}
-		q.req.ContentLength = int64(n)
-		if cfg.mode == modePositive {
-			q.req.Header.Set("Content-Length", strconv.Itoa(n))
+		if cfg.declN > 0 {
+			n = cfg.declN
+		}
+		q.req.ContentLength = n
+		switch cfg.mode {
+		case modePositive:
+			q.req.Header.Set("Content-Length", strconv.FormatInt(n, 10))
+		case modePositiveLZ:
+			q.req.Header.Set("Content-Length", "00"+strconv.FormatInt(n, 10))
 		}
 		q.declared = 1
 	}
@@ -1296,6 +1351,7 @@ type sweep struct {
 	extended   bool // alphabet of 8 operations, and only histories that use Read(4095) or Read(8192) (the others are covered by the base sweeps)
 	bound      int  // deviations of the streams from their default answers; -1 = unbounded
 	zeroBudget int
+	decls      []int64  // declared lengths of the positive modes (nil: the body's length)
 	terms      []error  // terminal conditions (nil: EOF and the injected error)
 	alphabet   []uint8  // operation alphabet (nil: the six base operations)
 	need       []uint8  // when set: only histories that contain one of these operations (the others are covered elsewhere)
